@@ -121,7 +121,7 @@ def plan_C05(p, tier, seed):
     p.trusted_base += ["constructor contract UBXMessage.__init__ (used modularly here; proved per definition in C01/C08)"]
     p.canary("parse-drop-checksum-test", "pyubx2.ubxreader", "            if ckm != ckv:", "            if False:",
              FuncUnit(R + "parse"))
-    p.canary("parse-length-lt", "pyubx2.ubxreader", "if leni != bytes2val(lenb, U2):", "if leni < bytes2val(lenb, U2):",
+    p.canary("parse-length-lt", "pyubx2.ubxreader", "or lenm != leni + 8:", "or lenm < leni + 8:",
              FuncUnit(R + "parse"))
     p.canary("checksum-b-plus-char", "pyubx2.ubxhelpers", "check_b += check_a", "check_b += char",
              FuncUnit(H + "calc_checksum"))
